@@ -1421,6 +1421,12 @@ mod convert {
                     if self.from_row.end_sequence() {
                         tombstone = false;
                         self.address = None;
+                        if self.program.in_sequence() {
+                            // Rows of this sequence were converted before it was
+                            // tombstoned, so the converted sequence must be ended too.
+                            self.from_row.reset(self.from_program.header());
+                            return Ok(Some(ConvertLineRow::EndSequence(prev_address_offset)));
+                        }
                     }
                     self.from_row.reset(self.from_program.header());
                     continue;
